@@ -2302,17 +2302,29 @@ impl Drop for DB {
         };
 
         log::info!("Terminating the compaction worker background thread.");
-        if let Some(compaction_worker_join_handle) = Arc::get_mut(&mut self.compaction_worker)
-            .unwrap()
-            .stop_worker_thread()
-        {
-            if let Err(thread_panic_val) = compaction_worker_join_handle.join() {
-                log::error!(
-                    "The compaction worker thread panicked while exiting. Unwinding the \
-                    stack with the panicked value."
-                );
+        match Arc::get_mut(&mut self.compaction_worker) {
+            Some(compaction_worker) => {
+                if let Some(compaction_worker_join_handle) = compaction_worker.stop_worker_thread()
+                {
+                    if let Err(thread_panic_val) = compaction_worker_join_handle.join() {
+                        log::error!(
+                            "The compaction worker thread panicked while exiting. Unwinding the \
+                            stack with the panicked value."
+                        );
 
-                panic::resume_unwind(thread_panic_val);
+                        panic::resume_unwind(thread_panic_val);
+                    }
+                }
+            }
+            None => {
+                // An iterator that outlives the database still holds a reference to the worker,
+                // so the join handle cannot be taken. Ask the thread to stop; it exits on its own
+                // because the shutdown flag is set.
+                log::info!(
+                    "The compaction worker is still referenced by a live iterator. Requesting \
+                    termination without waiting for the thread."
+                );
+                self.compaction_worker.schedule_task(TaskKind::Terminate);
             }
         }
     }
